@@ -215,8 +215,12 @@ class Gen:
         can_enc = self.first_param_is_tpm2b(c["rp"])
         rc = RCS[self.ch.choose(len(RCS), "rc:" + path)] if not enc else 0
         if enc is None:
-            enc = bool(can_enc and rc == 0 and self.ch.choose(2, "enc:" + path))
-        if enc and not can_enc:
+            if rc == 0:
+                enc = bool(can_enc and self.ch.choose(2, "enc:" + path))
+            else:
+                # a failed response is header-only whatever flag it is decoded with (the flag comes from the command)
+                enc = bool(self.ch.choose(2, "failflag:" + path))
+        if enc and not can_enc and rc == 0:
             raise Unencodable("response encryption without a TPM2B first parameter")
         saved, self.ev = self.ev, []
         body = self.fixed("TPM_RC", path + ".responseCode", rc)
